@@ -8,7 +8,7 @@ sys.path.insert(0, os.path.join(HERE, "tools"))
 from seeded_table import SUMMARY
 rnd = int(sys.argv[1]); out = sys.argv[2]
 os.makedirs(out, exist_ok=True)
-NUM = {1: "One", 2: "Two", 3: "Three", 4: "Four", 5: "Five", 6: "Six"}
+NUM = {1: "One", 2: "Two", 3: "Three", 4: "Four", 5: "Five", 6: "Six", 7: "Seven"}
 for line in open(os.path.join(HERE, "properties.jsonl")):
     p = json.loads(line)
     pid = p["id"]; low = pid.lower(); wt = f"/tmp/mut{rnd}-{pid}"
